@@ -553,6 +553,13 @@ def run(ctx):
             raise MachineryError(f'trace specification is not sensitive: corrupted events 2, 3 -> rejected {bad}')
         ctx.extra['corrupted_events_rejected'] = [r[3] for r in tr2.tagged('REJECT')]
 
+    # ---------------------------------------------------------------- growth: NeXus chopper field validation
+    # (extract_chopper_from_nexus / DiskChopper.from_nexus), derived quantities of cascade frames (bounds,
+    # subbounds, start/end times, propagate_by, acceptance diagram) on the cascade model of this check, SVG slit
+    # geometry (spec/chopper/Growth_*.tla; deviations are GROWTH-FINDINGs, not violations of C11)
+    from .. import lib_growth_chopper
+    lib_growth_chopper.run(ctx)
+
 
 META = {
     'design_ref': 'DESIGN.md §5 C11',
